@@ -191,6 +191,10 @@ func c17build(c *Ctx, i int, rng *rand.Rand) {
 	}
 	defer c.End()
 	zx.SetChunkMode(mode)
+	// the merge output buffer size is a process-wide knob: Persist and WriteTo must not
+	// care about it
+	zx.SetMergeBuffer([]int{1 << 20, 64, 4095, 2048, 1 << 20, 1024, 1, 4096}[(i/4)%8])
+	defer zx.SetMergeBuffer(1 << 20)
 	var seg segment.Segment
 	var ref []byte
 	ok := false
